@@ -104,7 +104,7 @@ def h_sbrg_general(env, N, coefs):
     env.goal('circuit_is_a_circuit', isinstance(circ, M.ci.CliffordCircuit))
 
 
-def h_sbrg(env, N, coefs, fix=None):
+def h_sbrg(env, N, coefs, fix=None, signed=False):
     """commuting-term Hamiltonian with symbolic term strings and concrete coefficients: heff has only I/Z strings and
     circ.forward(H) equals heff as an operator (coefficient vector over the Pauli basis)"""
     M = Mods(env)
@@ -121,15 +121,18 @@ def h_sbrg(env, N, coefs, fix=None):
             env.assume(b_not(ref.ref_anti(g[a], g[b])), 'all terms commute')
             env.assume(b_not(arr_eq(g[a], g[b])), 'terms are distinct strings')
     cs = np.array([complex(c) for c in coefs]) if not env.symbolic else env.const([complex(c) for c in coefs])
-    H = M.pa.PauliPolynomial(g.copy(), env.const([0] * T) if env.symbolic else np.zeros(T, dtype=int)).set_cs(cs)
+    # signed: the terms carry their signs in the phase indicators (an unreduced polynomial, e.g. built from a signed list
+    # or rotated by a circuit) instead of in the coefficients
+    hp = env.signs('term_sign', (T,)) if signed else (env.const([0] * T) if env.symbolic else np.zeros(T, dtype=int))
+    H = M.pa.PauliPolynomial(g.copy(), hp.copy()).set_cs(cs)
     res = env.run(lambda: M.ci.SBRG(H))
     env.goal('no_exception', b_not(res.raised))
     if res.value is None:
         return
     heff, circ = res.value
-    env.goal('input_unchanged', b_and(arr_eq(H.gs, g), arr_eq(H.cs, cs)))
+    env.goal('input_unchanged', AND([arr_eq(H.gs, g), arr_eq(H.cs, cs), arr_eq(H.ps, hp)]))
     env.goal('heff_only_I_Z', AND(eq(heff.gs[k][2 * i], 0) for k in range(heff.gs.shape[0]) for i in range(N)))
-    W = M.pa.PauliPolynomial(g.copy(), env.const([0] * T) if env.symbolic else np.zeros(T, dtype=int)).set_cs(cs.copy())
+    W = M.pa.PauliPolynomial(g.copy(), hp.copy()).set_cs(cs.copy())
     f = env.run(lambda: circ.forward(W))
     env.goal('forward_no_exception', b_not(f.raised))
     if f.value is None:
@@ -168,6 +171,8 @@ def jobs(tier):
         for coefs in ([2], [3, -1], [1, 2]) + (([1, -3, 2],) if tier == 'thorough' else ()):
             if len(coefs) <= 2 ** N - 1:
                 J.append(dict(harness=('c18', 'h_sbrg'), params=dict(N=N, coefs=list(coefs)), timeout_s=600, cost=50, max_paths=20000))
+                if coefs != [1, 2]:
+                    J.append(dict(harness=('c18', 'h_sbrg'), params=dict(N=N, coefs=list(coefs), signed=True), timeout_s=600, cost=50, max_paths=20000))
     for f1 in itertools.product((0, 1), repeat=6):
         if any(f1) and (tier == 'thorough' or f1 == (0, 1, 0, 1, 0, 0)):
             if True:
